@@ -23,11 +23,22 @@ import vlib
 from gens import kin
 
 HARNESS_TIMEOUT = 180
+KEY_ACCUM = "tol-is-per-substep-global-error-accumulates"
+LITERAL = 100.0           # the property's bound: |amount - exact| <= 100 x tol
 TRACE_MAX = 60000          # harness/ph_kin.cpp truncates longer traces
 
 # minimised past disagreements, always replayed first.  Both showed, before /repo commit 0450d481, a CVODE re-start that
 # continued from the state of a rejected attempt paired with the time of the last good step (result at T off by up to
 # 4196 x tol depending on -cvode_steps).
+# deterministic reproductions of the known finding KEY_ACCUM (clean tree: about 3900 x tol and 160 x tol), run first
+ACCUM_CORPUS = [
+    {"problem": {"kind": "first", "p": {"m0": 0.08, "k": 0.0005}},
+     "config": {"T": 1000.0, "tol": 4e-11, "division": ["equal", 1], "incremental": False,
+                "integ": {"cvode": True, "cvode_steps": 100000, "cvode_order": 1, "bad_step_max": 500}}},
+    {"problem": {"kind": "first", "p": {"m0": 0.08, "k": 0.002}},
+     "config": {"T": 1000.0, "tol": 4e-11, "division": ["equal", 1], "incremental": False,
+                "integ": {"cvode": True, "cvode_steps": 100000, "cvode_order": 2, "bad_step_max": 500}}},
+]
 CORPUS = [
     {"problem": {"kind": "first", "p": {"m0": 0.0004376945293302126, "k": 0.0058141165059866886}},
      "config": {"T": 419.4388976595506, "tol": 6.935194474680307e-08,
@@ -195,7 +206,8 @@ def formula_coefs(prob):
 
 def analyse(prob, cfg, r):
     """returns dict(status, problems=[(kind, text)], stale=[...], ratio=..)"""
-    out = {"status": "ok", "problems": [], "stale": [], "ratio": 0.0, "restarts": 0, "evals": 0, "balance": 0.0}
+    out = {"status": "ok", "problems": [], "stale": [], "ratio": 0.0, "restarts": 0, "evals": 0, "balance": 0.0,
+           "literal": 0.0, "band": "within100", "accum": None}
     if r is None:
         out["status"] = "timeout"
         return out
@@ -310,11 +322,23 @@ def analyse(prob, cfg, r):
         for nm, v in ex.items():
             got = row[col["m_" + nm]] if not nm.startswith("sol:") else row[col[nm[4:]]]
             ratio = abs(got - v) / bound
+            lit = abs(got - v) / tol
             out["ratio"] = max(out["ratio"], ratio)
+            if lit > out["literal"]:
+                out["literal"] = lit
             if ratio > 1.0:
+                # beyond what per-sub-step error control can explain: violation
+                out["band"] = "violation"
                 out["problems"].append(("closed-form", f"step {step} (t = {t_end!r}): {nm} = {got!r}, exact solution {v!r}: "
-                                        f"difference {abs(got - v) / tol:.4g} x tol, allowed {bound / tol:.4g} x tol "
-                                        f"({cum_evals} rate evaluations)"))
+                                        f"difference {lit:.4g} x tol, property allows 100 x tol, accumulation of one tol per sub-step "
+                                        f"would explain {bound / tol:.4g} x tol ({cum_evals} rate evaluations)"))
+            elif lit > LITERAL:
+                # literal bound of the property exceeded, explained by accumulation of the per-sub-step tolerance: known finding
+                if out["band"] == "within100":
+                    out["band"] = "finding"
+                if out["accum"] is None or lit > out["accum"]["x_tol"]:
+                    out["accum"] = {"step": step, "reactant": nm, "x_tol": lit, "evaluations": cum_evals,
+                                    "explained_up_to_x_tol": bound / tol}
     return out
 
 
@@ -375,6 +399,7 @@ def lib_analyse(name, cfgs, results):
         clock_ok = abs(last[3] - 1e-3 * math.exp(-kc * c["T"])) <= bound
         vals.append((c, last[2], last[3], bound, clock_ok, min(row[2] for row in r["rows"][-kin.nsteps(c):])))
     probs, worst, ncmp = [], 0.0, 0
+    accum = None
     for i in range(len(vals)):
         if vals[i][5] < 0:
             probs.append(f"{name}: negative amount {vals[i][5]!r}")
@@ -386,11 +411,18 @@ def lib_analyse(name, cfgs, results):
             d = abs(vals[i][1] - vals[j][1])
             lim = vals[i][3] + vals[j][3]
             worst = max(worst, d / lim)
+            if d > LITERAL * vals[i][0]["tol"] and d <= lim and (accum is None or d / vals[i][0]["tol"] > accum["x_tol"]):
+                accum = {"library": name, "x_tol": d / vals[i][0]["tol"], "explained_up_to_x_tol": lim / vals[i][0]["tol"],
+                         "a": vals[i][0]["integ"], "b": vals[j][0]["integ"]}
             if d > lim:
                 probs.append(f"{name} at T = {vals[i][0]['T']!r}: {vals[i][1]!r} with {vals[i][0]['integ']} / {vals[i][0]['division'][0]} / "
                              f"incremental={vals[i][0]['incremental']} but {vals[j][1]!r} with {vals[j][0]['integ']} / {vals[j][0]['division'][0]} / "
                              f"incremental={vals[j][0]['incremental']}: difference {d / vals[i][0]['tol']:.4g} x tol, allowed {lim / vals[i][0]['tol']:.4g} x tol")
-    return probs, ncmp, worst
+    for v in vals:
+        dclock = abs(v[2] - 1e-3 * math.exp(-1.5)) / v[0]["tol"]
+        if v[4] and dclock > LITERAL and (accum is None or dclock > accum["x_tol"]):
+            accum = {"library": name, "clock": True, "x_tol": dclock, "explained_up_to_x_tol": v[3] / v[0]["tol"], "a": v[0]["integ"]}
+    return probs, ncmp, worst, accum
 
 
 # ------------------------------------------------------------------------------------------------------------------
@@ -446,7 +478,41 @@ def run(ctx):
     def bump(k, v=1):
         hist[k] = hist.get(k, 0) + v
 
-    # ---- corpus: minimised past disagreements are replayed first ------------------------------------------------
+    bands = {"within100": 0, "finding": 0, "violation": 0}
+    bands_by_integrator = {}
+    accum_best = [None]          # (x_tol, replay, detail) of the largest excess over 100 x tol that accumulation explains
+
+    def note_accum(x_tol, replay_data, detail):
+        if accum_best[0] is None or x_tol > accum_best[0][0]:
+            accum_best[0] = (x_tol, replay_data, detail)
+
+    def account(prob, cfg, o):
+        bands[o["band"]] += 1
+        ig = cfg["integ"]
+        k = f"cvode order {ig['cvode_order']}" if ig["cvode"] else f"rk {ig['rk']}"
+        b = bands_by_integrator.setdefault(k, {"within100": 0, "finding": 0, "violation": 0, "worst_x_tol": 0.0})
+        b[o["band"]] += 1
+        b["worst_x_tol"] = max(b["worst_x_tol"], o["literal"])
+
+    # ---- corpus: the deterministic reproductions of the known finding, then minimised past disagreements ---------
+    for item in ACCUM_CORPUS:
+        prob = kin.Problem.from_json(item["problem"])
+        cfg = json.loads(json.dumps(item["config"]))
+        cfg["division"] = tuple(cfg["division"])
+        o = closed_case(exe, prob, [cfg])[0]
+        evals += 1
+        bump("corpus")
+        if o["status"] == "ok":
+            account(prob, cfg, o)
+            if o["accum"]:
+                ctx.finding(KEY_ACCUM,
+                            f"first-order decay, -cvode true -cvode_order {cfg['integ']['cvode_order']}, -tol {cfg['tol']!r}: amount at T differs "
+                            f"from m0*exp(-kT) by {o['accum']['x_tol']:.4g} x tol (property: 100 x tol) after {o['accum']['evaluations']} rate "
+                            f"evaluations; -tol bounds the error of each sub-step, the global error accumulates",
+                            {"kind": "closed", "problem": item["problem"], "config": item["config"]})
+                note_accum(o["accum"]["x_tol"], {"kind": "closed", "problem": item["problem"], "config": item["config"]}, o["accum"])
+            for kind_, text in o["problems"][:1]:
+                ctx.violation(f"corpus case — {kind_}: {text}", {"kind": "closed", "problem": item["problem"], "config": item["config"]})
     for item in CORPUS:
         prob = kin.Problem.from_json(item["problem"])
         cfg = json.loads(json.dumps(item["config"]))
@@ -454,6 +520,8 @@ def run(ctx):
         o = closed_case(exe, prob, [cfg])[0]
         evals += 1
         bump("corpus")
+        if o["status"] == "ok":
+            account(prob, cfg, o)
         if o["problems"]:
             ctx.violation(f"corpus case fails again — {o['problems'][0][0]}: {o['problems'][0][1]}",
                           {"kind": "closed", "problem": item["problem"], "config": item["config"]})
@@ -533,6 +601,9 @@ def run(ctx):
                 continue
             distinct += 1
             n_judged += 1
+            account(prob, cfg, o)
+            if o["accum"]:
+                note_accum(o["accum"]["x_tol"], {"kind": "closed", "problem": prob.to_json(), "config": cfg}, o["accum"])
             worst_ratio = max(worst_ratio, o["ratio"])
             worst_bal = max(worst_bal, o["balance"])
             if o["restarts"]:
@@ -559,7 +630,11 @@ def run(ctx):
             res = run_inputs(exe, [lib_input(j[0], c) for c in j[1]], trace=True, timeout=400)
             return lib_analyse(j[0], j[1], res) + (sum(1 for r in res if r is not None and not r["nerr"]),)
         lib_res = list(ex.map(lib_job, lib_jobs))
-    for (name, cfgs), (probs, ncmp, worst, done) in zip(lib_jobs, lib_res):
+    for (name, cfgs), (probs, ncmp, worst, lacc, done) in zip(lib_jobs, lib_res):
+        if lacc is not None:
+            bands["finding"] += 1
+            bump("library pairs/clock beyond 100 x tol (finding band)")
+            note_accum(lacc["x_tol"], {"kind": "library", "name": name, "configs": cfgs}, lacc)
         evals += len(cfgs)
         distinct += done
         bump("library " + name, len(cfgs))
@@ -574,6 +649,14 @@ def run(ctx):
         spec, detail = corr_broken
         ctx.violation(f"model of rk_kinetics and the real code disagree ({detail}); no run contradicting the property was found in "
                       f"{n_judged} judged runs", {"kind": "poly", "spec": spec, "detail": detail}, found_input=False)
+    # runs beyond 100 x tol that accumulation of the per-sub-step tolerance explains: the known finding (largest one reported)
+    if accum_best[0] is not None:
+        x_tol, rp, detail = accum_best[0]
+        ctx.finding(KEY_ACCUM, f"amount at T differs from the exact solution by {x_tol:.4g} x tol (property: 100 x tol); {detail}", rp)
+    ctx.cov["tolerance_bands"] = {"runs <= 100 x tol": bands["within100"], "runs in the finding band (100 x tol < error <= sqrt(n) x tol x "
+                                  "max(100, 2 x evaluations))": bands["finding"], "runs beyond (violation)": bands["violation"],
+                                  "by_integrator": dict(sorted(bands_by_integrator.items())),
+                                  "largest_excess_explained_by_accumulation": accum_best[0][2] if accum_best[0] else None}
     ctx.cov["evaluations"] = evals
     ctx.cov["distinct_nontrivial"] = distinct
     ctx.cov["input_distribution"] = dict(sorted(hist.items()))
@@ -586,10 +669,14 @@ def run(ctx):
                        "bit for bit. closed: zero-order / first-order / A->B(aq)->C / A->B->C via KIN(), 4 configurations per problem over "
                        "{RK 1,2,3,6 x step_divide, CVODE order 1-5 x cvode_steps 5..500} x {equal, listed divisions of T} x incremental; every "
                        "reaction step judged: amounts >= 0, KIN_DELTA x formula = change of solution (1e-6 of inventory), TOTAL_TIME/KIN_TIME, closed "
-                       "form within sqrt(n) x tol x max(100, 2 x number of rate evaluations) [-tol is an absolute per-sub-step error bound in moles: the "
-                       "global error may accumulate one tol per sub-step], CVODE restart accounting from the callback trace. distinct = completed runs.")
-    ctx.assumptions += ["-tol is an absolute local (per sub-step) error bound in moles; '100 x tol' is applied as tol x max(100, 2 x number of rate "
-                        "evaluations) x sqrt(number of reactants) so that step-count accumulation (e.g. -cvode_order 1) is not a false alarm",
+                       "form: <= 100 x tol (property) / <= sqrt(n) x tol x max(100, 2 x number of rate evaluations) (known finding: -tol is a per-sub-step "
+                       "bound, the global error accumulates) / beyond = violation; CVODE restart accounting from the callback trace. distinct = "
+                       "completed runs.")
+    ctx.assumptions += ["every run is judged against the property's literal bound |amount - exact| <= 100 x tol first; a run beyond it but within "
+                        "sqrt(n) x tol x max(100, 2 x rate evaluations) is the known finding " + KEY_ACCUM + " (-tol is an absolute error bound "
+                        "per integrator sub-step, the global error accumulates; RK runs stay below 2 x tol, CVODE order 1 reaches ~4000 x tol "
+                        "without restarts); anything beyond the accumulation bound is a violation; the counts per band are in "
+                        "coverage.tolerance_bands",
                         "runs that end with an ERROR or do not terminate within the harness time limit are counted, not judged"]
     if not ok and not ctx.violations:
         ctx.violation("a proof obligation of C12 (tableau regenerated from the current source, or the translator's shape check) no longer "
@@ -626,8 +713,8 @@ def replay(ctx, data):
         for c in cfgs:
             c["division"] = tuple(c["division"])
         res = run_inputs(exe, [lib_input(data["name"], c) for c in cfgs], trace=True, timeout=400)
-        probs, ncmp, worst = lib_analyse(data["name"], cfgs, res)
-        print("replay:", probs[:2], ncmp, worst)
+        probs, ncmp, worst, lacc = lib_analyse(data["name"], cfgs, res)
+        print("replay:", probs[:2], ncmp, worst, lacc)
         if probs:
             ctx.violation("replayed case still fails: " + probs[0], data)
     elif kind_ == "curstep":
@@ -653,10 +740,15 @@ MANIFEST = dict(
          "final amounts never negative; time — incremental_times_sum, cumulative last step = T, list steps; restart_covers_T for the CVODE "
          "restart statements read from run_reactions. Correspondence: every RATES evaluation of real rk_kinetics vs the Float model "
          "(bit patterns), Current_step direct. Obligation over generated data: closed-form families, balance, non-negativity, time columns, "
-         "restart accounting and restart state (from the callback trace), rate library on real runs; corpus of two minimised past "
+         "restart accounting and restart state (from the callback trace), rate library on real runs. The closed-form and independence clauses "
+         "are judged against the literal 100 x tol first; runs beyond it but within sqrt(n) x tol x max(100, 2 x rate evaluations) are reported "
+         "as KNOWN-FINDING tol-is-per-substep-global-error-accumulates (a deterministic reproduction, first-order decay with -cvode_order 1, "
+         "~3900 x tol, runs first), runs beyond that are violations; band counts in the evidence. Corpus of two minimised past "
          "disagreements (CVODE restart from a rejected attempt's state, fixed in /repo 0450d481) replayed first.",
     note="Trusted: gen_rk.py (regex + exact rational evaluator; fails closed), harness/ph_kin.cpp (BASIC callback trace, friend access), "
          "tolerance logic in c12.py. Partial: CVODE (BDF) internals are not modelled — explored only; the chemistry solve between stages is "
          "the model's rate-function parameter (MASS_BALANCE retry path, limit_rates, related exchangers/surfaces not modelled); the early-exit "
-         "case of accepted_steps_cover_T is not proved (only the normal loop exit); '100 x tol' is applied per sub-step (see assumptions).",
+         "case of accepted_steps_cover_T is not proved (only the normal loop exit). Known finding: the code does not meet the literal "
+         "'100 x tol' (CVODE, low order or many restarts); the accumulation bound that separates the finding band from violations is the "
+         "check's own (error gate theorem: each accepted sub-step has estimate <= tol; evaluations >= sub-steps).",
 )
